@@ -176,7 +176,8 @@ fn rx(input: &[V]) -> Vec<V> {
 ///             k: 0 STREAM(empty) 1 STREAM(empty, FIN) 2 RESET_STREAM(0) 3 STREAM_DATA_BLOCKED
 ///                4 MAX_STREAM_DATA 5 STOP_SENDING)            -> [code]; an error ends the case
 ///  2 b       the application opens a local stream (b != 0: bidirectional) -> [1 | 0]
-///  3 t n     the application reads the stream -> [-1 error | 0 | 1 finished]
+///  3 _ n     the application reads the n-th peer-initiated unidirectional stream
+///            -> [-1 error | 0 | 1 finished]
 ///  4         200 ms pass
 ///  5         timers fire, one packet is transmitted -> [MAX_STREAMS bidi | -1, MAX_STREAMS uni | -1]
 ///  6 k / 7 k packet k acknowledged / lost
@@ -238,9 +239,10 @@ fn st(input: &[V]) -> Vec<V> {
                 out.push(d.open_local(b).is_some() as V);
             }
             3 => {
-                let t = c.next();
+                let _t = c.next();
                 let n = c.next();
-                match d.read(id(t, n), 10) {
+                // only peer-initiated unidirectional streams are read (and thereby closed)
+                match d.read(id(1, n), 10) {
                     Read::Error => out.push(-1),
                     Read::Data(_, fin) => out.push(fin as V),
                 }
